@@ -273,7 +273,33 @@ func clearResetRule(c *Ctx, ruleID string) {
 				okF = true
 			}
 		}
-		L.Check(okI && okD && okF, ruleID, "tinyLFU.clear", "incrs = 0, door.Clear(), freq.Clear()", fmt.Sprintf("tinyLFU.clear is incomplete (incrs=0:%v door.Clear:%v freq.Clear:%v)", okI, okD, okF), fn.Pos())
+		// ... each of the three on every path: incrs says nothing about the counters (an aging reset
+		// zeroes incrs and keeps the halved counts), so "nothing recorded since" is no reason to skip
+		uncond := true
+		if okI && okD && okF {
+			var steps [][]ssa.Instruction
+			var sts []ssa.Instruction
+			for _, st := range fieldStoresIn(fn, "tinyLFU", "incrs") {
+				if isConst(st.Val, "0") {
+					sts = append(sts, st)
+				}
+			}
+			steps = append(steps, sts)
+			var ds, fs []ssa.Instruction
+			for _, ci := range callsTo(fn, "z.Bloom.Clear") {
+				ds = append(ds, ci)
+			}
+			for _, ci := range callsTo(fn, "cmSketch.Clear") {
+				fs = append(fs, ci)
+			}
+			steps = append(steps, ds, fs)
+			for _, st := range steps {
+				if b, _ := mustPass(entryPos(fn), isAnyInstr(st), nil); b != nil {
+					uncond = false
+				}
+			}
+		}
+		L.Check(okI && okD && okF && uncond, ruleID, "tinyLFU.clear", "incrs = 0, door.Clear(), freq.Clear(), each on every path", fmt.Sprintf("tinyLFU.clear is incomplete (incrs=0:%v door.Clear:%v freq.Clear:%v unconditional:%v): after Clear old frequency counts survive", okI, okD, okF, uncond), fn.Pos())
 	})
 	c.Group(ruleID, "shardedMap.Clear", func() {
 		fn := P.Fn("ristretto", "shardedMap", "Clear")
